@@ -1527,12 +1527,12 @@ func TestVerifC04Routing(t *testing.T) {
 	n := vh.N(1500)
 	rng := vh.NewRng(vh.Seed() + 4)
 	for i := 0; i < n; i++ {
-		g := &c04Gen{r: rng.Fork(), defect: 12}
+		g := &c04Gen{r: rng.Fork(), defect: 4}
 		switch i % 10 {
 		case 0:
 			g.defect = 0 // only well-formed configurations
 		case 1:
-			g.defect = 60 // mostly refused ones
+			g.defect = 40 // mostly refused ones
 		}
 		c04RunCase(t, out, c04Decode(strings.Join(c04Encode(g.gen()), " ")))
 	}
